@@ -164,7 +164,10 @@ packed TTL word, then the options inside the RDLENGTH bracket -/
 theorem frame_opt :
     (frame "dec.opt").all (· == [("_", "is_finished"), ("_", "rr_edns_option*")]) = true ∧
     (frame "dec.edns_option").all (· == [("_", "rr_edns_option_code"), ("_", "u16"), ("@1", "sub"), ("_", "rr_edns_ecs"),
-      ("_", "rr_edns_cookie"), ("_", "rr_edns_padding"), ("_", "finished")]) = true ∧
+      ("_", "rr_edns_cookie"), ("_", "rr_edns_padding"), ("_", "finished")]) = true := by decide
+
+/-- the OPT writer: root owner, TYPE, payload size in CLASS, the packed TTL word, then the options inside the RDLENGTH bracket -/
+theorem frame_opt_enc :
     (frame "enc.opt").all (· == [("_", "domain_name"), ("_", "rr_type"), (".requestor_payload_size", "u16"),
       (".extend_rcode", "u32"), ("_", "create_length_index"), (".edns_options", "rr_edns_option*"),
       ("@4", "set_length_index")]) = true := by decide
@@ -175,7 +178,11 @@ back-patches the length octet -/
 theorem frame_apl :
     (frame "dec.apl").all (· == [("_", "is_finished"), ("_", "rr_apl_apitem*")]) = true ∧
     (frame "dec.apitem").all (· == [("_", "rr_address_family_number"), ("_", "u8"), ("_", "u8"), ("_", "sub"),
-      ("@0", "rr_address"), ("_", "finished")]) = true ∧
+      ("@0", "rr_address"), ("_", "finished")]) = true := by decide
+
+/-- the APL item writer: family, prefix, a placeholder octet, the address without trailing zero octets, then the
+negation/length octet is back-patched -/
+theorem frame_apl_enc :
     (frame "enc.apitem").all (· == [("_", "rr_address_family_number"), ("_", "u8"), ("_", "u8"),
       ("_", "rr_address_without_trailing_zeros"), (".negation", "set_address_length_index")]) = true := by decide
 
@@ -184,7 +191,10 @@ a sub-window of exactly that length (`@4`) for the value reader of that key (`@3
 the RDLENGTH placeholder it created (`@4`) -/
 theorem frame_svcb :
     (frame "dec.svcb").all (· == [("_", "u16"), ("_", "domain_name"), ("_", "is_finished?"), ("_", "u16*"), ("_", "u16*"),
-      ("@4", "sub*"), ("@3", "rr_service_parameter*"), ("_", "finished*")]) = true ∧
+      ("@4", "sub*"), ("@3", "rr_service_parameter*"), ("_", "finished*")]) = true := by decide
+
+/-- the SVCB/HTTPS writer: header, RDLENGTH placeholder, priority, target, the parameters in the set's order, back-patch -/
+theorem frame_svcb_enc :
     (frame "enc.svcb").all (· == [(".name", "domain_name"), ("_", "rr_type"), ("_", "rr_class"), (".ttl", "u32"),
       ("_", "create_length_index"), (".priority", "u16"), (".target_name", "domain_name"),
       (".parameters", "rr_service_parameter*"), ("@4", "set_length_index")]) = true := by decide
